@@ -27,6 +27,7 @@ class Chooser(object):
         self.replay = replay
         self.pos = 0
         self.record = []
+        self.trace = None       # set to a list to log (lo, hi, value) triples (seed inputs for the byte backend)
 
     def int(self, lo, hi):
         if hi < lo:
@@ -46,6 +47,8 @@ class Chooser(object):
                 v = lo
             self.pos += 1
         self.record.append(v)
+        if self.trace is not None:
+            self.trace.append((lo, hi, v))
         return v
 
     def bool(self, num=1, den=2):
@@ -69,6 +72,44 @@ class Chooser(object):
         if alphabet is None:
             return bytes(self.int(0, 255) for _ in range(n))
         return bytes(alphabet[self.int(0, len(alphabet) - 1)] for _ in range(n))
+
+
+def _nbytes(span):
+    return ((span - 1).bit_length() + 7) // 8
+
+
+class ByteChooser(Chooser):
+    """Decisions decoded from a byte string: the backend of the coverage-guided stage, where
+    libFuzzer mutates the bytes.  A decision over lo..hi consumes the fewest whole octets that can
+    hold the span (big endian, reduced modulo the span); an exhausted buffer yields the lower
+    bound.  `record` holds the decisions taken, so a failing input replays through
+    Chooser(replay=record) like any other case."""
+
+    def __init__(self, buf):
+        Chooser.__init__(self, replay=[])
+        self.buf = bytes(buf)
+        self.off = 0
+
+    def int(self, lo, hi):
+        if hi < lo:
+            raise ValueError('empty range %r..%r' % (lo, hi))
+        if lo == hi:
+            return lo
+        span = hi - lo + 1
+        k = _nbytes(span)
+        chunk = self.buf[self.off:self.off + k]
+        self.off += k
+        v = lo + int.from_bytes(chunk, 'big') % span if chunk else lo
+        self.record.append(v)
+        return v
+
+
+def encode_trace(trace):
+    """the byte string from which ByteChooser re-takes the logged decisions"""
+    out = bytearray()
+    for lo, hi, v in trace:
+        out += (v - lo).to_bytes(_nbytes(hi - lo + 1), 'big')
+    return bytes(out)
 
 
 def shrink_choices(record, still_fails, deadline, clock):
